@@ -217,6 +217,10 @@ func (g *gen) selection(def *ast.Definition, depth int, root bool) string {
 			sb.WriteString(g.cond())
 			if !root {
 				sb.WriteString(g.deferDir())
+			} else if g.o.Mutation && g.t.Bool(1, 4, "root-defer") {
+				// @defer on a fragment of the mutation root: legal, and without effect there
+				// (root fields of a mutation run one after the other, in document order)
+				sb.WriteString(" @defer")
 			}
 			sb.WriteString(" ")
 			sb.WriteString(g.selection(cd, depth-1, root && c == def.Name))
@@ -233,6 +237,8 @@ func (g *gen) selection(def *ast.Definition, depth int, root bool) string {
 			sb.WriteString(g.cond())
 			if !root {
 				sb.WriteString(g.deferDir())
+			} else if g.o.Mutation && g.t.Bool(1, 4, "root-defer") {
+				sb.WriteString(" @defer")
 			}
 			wrote++
 		}
